@@ -55,14 +55,16 @@ Definition named_order_differs (src : string) (raw : node) : bool :=
     match fuel with
     | O => acc
     | S f =>
-        match ts with
-        | "sqlc" :: "." :: "arg" :: "(" :: x :: ")" :: rest =>
-            names f rest (if mem_str (unquote x) acc then acc else acc ++ [unquote x])
-        | "@" :: x :: rest =>
-            if match x with String c _ => is_word_char c | EmptyString => false end
-            then names f rest (if mem_str x acc then acc else acc ++ [x]) else names f (x :: rest) acc
-        | _ :: rest => names f rest acc
-        | [] => acc
+        match arg_call ts with
+        | Some (x, rest) => names f rest (if mem_str (unquote x) acc then acc else acc ++ [unquote x])
+        | None =>
+            match ts with
+            | "@" :: x :: rest =>
+                if match x with String c _ => is_word_char c | EmptyString => false end
+                then names f rest (if mem_str x acc then acc else acc ++ [x]) else names f (x :: rest) acc
+            | _ :: rest => names f rest acc
+            | [] => acc
+            end
         end
     end in
   let text_order := names (S (List.length ts)) ts [] in
